@@ -28,6 +28,9 @@ def _fake_assignment(kind, feats, atype, group, confirm, mult=1):
     ra.read_id = "r"
     ra.assignment_type = t
     ra.gene_assignment_type = t
+    if kind == "gene" and mult > 1 and t.is_unique():
+        # unique at gene level, shared by several isoforms of that gene at transcript level
+        ra.assignment_type = ReadAssignmentType.ambiguous
     ra.read_group = group
     # gene level: several matched isoforms may name one and the same gene (mult matches per gene)
     reps = mult if kind == "gene" else 1
